@@ -969,13 +969,14 @@ fn main() {
             }
         }
     };
-    let na: Vec<usize> = (0..=run.tier.pick(4, 6)).collect();
+    // thorough runs n = 6 of this family LAST (largest level: a wall-clock cap then only truncates that level)
+    let na: Vec<usize> = (0..=run.tier.pick(4, 5)).collect();
     run_family("A(full alphabet, strategy)", &full, &types_full, &na, &[Entry::Strategy], false, false, seed_cap, &mut levels_done);
     let na_small: Vec<usize> = (0..=run.tier.pick(4, 5)).collect();
     run_family("A'(full alphabet, PlacementEngine cfg0+cfg1, all k<=20)", &full, &types_full, &na_small, &[Entry::Engine(0), Entry::Engine(1)], false, true, 512, &mut levels_done);
     run_family("A''(full alphabet, each single node without metadata)", &full, &types_full, &na_small, &[Entry::Strategy], true, false, 2, &mut levels_done);
     bounds.insert("family_A".into(), json!({"locations": full.pts.iter().map(|p| p.name.clone()).collect::<Vec<_>>(), "asn": [1, 2], "regions": ["Europe", "NorthAmerica"], "types": types_full.len(),
-        "n_strategy": na, "n_engine_and_gaps": na_small, "k": "0..=n exhaustively seeded; n+1..=20 one call (engine family) / n+1 and 20 (others)", "seed_cap": seed_cap}));
+        "n_strategy": if thorough { json!([0, 1, 2, 3, 4, 5, 6]) } else { json!(na) }, "n_engine_and_gaps": na_small, "k": "0..=n exhaustively seeded; n+1..=20 one call (engine family) / n+1 and 20 (others)", "seed_cap": seed_cap}));
 
     // ---- family B: reduced location alphabet, three regions, larger n (Ok reachable for k = 5, 6) --------------------
     let types_b_small: Vec<NodeT> = {
@@ -989,7 +990,7 @@ fn main() {
         v
     };
     let types_b_full = type_alphabet(reduced.pts.len(), &[1, 2], 3);
-    let (b24, b16): (Vec<usize>, Vec<usize>) = run.tier.pick((vec![5, 6], vec![7]), (vec![5, 6, 7], vec![8]));
+    let (b24, b16): (Vec<usize>, Vec<usize>) = run.tier.pick((vec![5], vec![6, 7]), (vec![5, 6, 7], vec![8]));
     run_family("B(reduced alphabet 24 types, strategy)", &reduced, &types_b_full, &b24, &[Entry::Strategy], false, false, seed_cap, &mut levels_done);
     run_family("B'(reduced alphabet 16 types, strategy)", &reduced, &types_b_small, &b16, &[Entry::Strategy], false, false, seed_cap, &mut levels_done);
     bounds.insert("family_B".into(), json!({"locations": reduced.pts.iter().map(|p| p.name.clone()).collect::<Vec<_>>(), "types_16": "4 loc x {(1,EU),(1,NA),(2,EU),(1,AP)}", "types_24": "4 loc x asn{1,2} x {EU,NA,AP}",
@@ -1052,7 +1053,9 @@ fn main() {
         });
         bounds.insert("degenerate_weights".into(), json!({"per_component": ["1", "0", "1e308", "5e-324", "-0", "-1", "NaN", "+inf", "-inf"], "diversity_weight": ["1", "0", "NaN"], "combinations": combos.len(),
             "candidate_sets": reps.len(), "k": "0..=n+1", "entries": ["strategy", "engine cfg1"], "seeds": run.tier.pick(4, 32)}));
-        levels_done.push(format!("X: degenerate optimisation weights @{:.1}s", run.elapsed().as_secs_f64()));
+        if !budget.was_hit() {
+            levels_done.push(format!("X: degenerate optimisation weights @{:.1}s", run.elapsed().as_secs_f64()));
+        }
     }
 
     // ---- family L: large structured candidate sets (n up to 60), k = 0..=20 --------------------------------------------
@@ -1100,9 +1103,14 @@ fn main() {
             lo.flush(&cx);
         });
         bounds.insert("family_L".into(), json!({"layouts": layouts.iter().map(|l| l.0).collect::<Vec<_>>(), "n": sizes, "k": "0..=20", "seeds": seeds, "coverage": "fixed seed set, outcome space not enumerated (not claimed exhaustive)"}));
-        levels_done.push(format!("L: large structured sets @{:.1}s", run.elapsed().as_secs_f64()));
+        if !budget.was_hit() {
+            levels_done.push(format!("L: large structured sets @{:.1}s", run.elapsed().as_secs_f64()));
+        }
     }
 
+    if thorough {
+        run_family("A(full alphabet, strategy)", &full, &types_full, &[6], &[Entry::Strategy], false, false, seed_cap, &mut levels_done);
+    }
     if budget.was_hit() {
         run.cap_hit(format!("wall-clock budget hit; completed levels: {levels_done:?}"));
         if levels_done.len() < 4 {
@@ -1137,7 +1145,7 @@ fn main() {
             "sampler randomness is owned through fastrand::seed per call; the iteration order of the std HashSet of candidates is not owned: it permutes which uniform a candidate receives, so seed->outcome differs between processes, while the oracle clauses are universal over outcomes and coverage is counted on observed outcomes (verdicts are run-independent, evaluation counts vary by a few percent)".into(),
             "C17.favour is a count over a complete fixed seed set (0..512 quick / 0..4096 thorough) per (weight vector, k); weight ratios are 3:1 or astronomically large, so the count comparison is far outside sampling noise".into(),
             "trust/stability/capacity scores inside select_nodes are the constants the crate currently uses (0.8/0.9/1.0); per-node score variation is exercised only through calculate_weight and sample_nodes directly".into(),
-            "DESIGN bounds (n<=6 quick / <=8 thorough over the full product alphabet) were scaled to measured throughput: full 48-type alphabet to n<=4 quick / <=6 thorough, reduced 24-type alphabet for n=5,6 (+7 thorough), 16-type alphabet for n=7 quick / n=8 thorough".into(),
+            "DESIGN bounds (n<=6 quick / <=8 thorough over the full product alphabet) were scaled to measured throughput: full 48-type alphabet to n<=4 quick / <=6 thorough, reduced 24-type alphabet for n=5 quick / 5..7 thorough, 16-type alphabet for n=6,7 quick / n=8 thorough".into(),
             "ByzantineTolerance is judged on 0..=255 only; usize extremes are probed as info (2*max_faults overflows there)".into(),
         ],
     );
